@@ -87,7 +87,11 @@ func (zp *ZoneParser) generate(l lex) (RR, bool) {
 	zp.sub.includeDepth, zp.sub.includeAllowed = zp.includeDepth, zp.includeAllowed
 	zp.sub.SetIncludeFS(zp.fsys)
 	zp.sub.generateDisallowed = true
-	zp.sub.SetDefaultTTL(defaultTtl)
+	if zp.defttl != nil {
+		zp.sub.defttl = zp.defttl
+	} else {
+		zp.sub.SetDefaultTTL(defaultTtl)
+	}
 	return zp.subNext()
 }
 
